@@ -33,6 +33,8 @@ SIGNED = {f: f[0] in "iI" for f in FORMATS}
 REP = {"I24": "i32", "U24": "i32", "I48": "i64", "U48": "i64"}
 PAIRS = [(s, d) for s in FORMATS for d in FORMATS if s != d]
 TEST_CONV = os.environ.get("DASP_CONV_RS")  # TESTING ONLY: pretend /repo's conv.rs were this file
+TEST_TYPES = os.environ.get("DASP_TYPES_RS")  # TESTING ONLY: pretend /repo's types.rs were this file
+TEST_MODE = bool(TEST_CONV or TEST_TYPES)
 # build profiles the crate is executed in: index -> (cargo profile, name in reports, model mode code)
 # model mode code: 0 = Checked arithmetic (overflow checks on), 1 = Wrapping.  relchk = optimised build with
 # overflow checks ON and debug assertions OFF: nothing in conv.rs may depend on cfg!(debug_assertions), so the
@@ -133,6 +135,9 @@ def gen_items(rng, tier):
     n_rand = 700 if tier == "quick" else 6000
     n_mal = 40 if tier == "quick" else 400
     items = []
+    for mode in MODES:  # the crate's own constants and validity check against the generated format table
+        for f in FORMATS:
+            items.append(dict(kind="consts", mode=mode, s=f, d=f, vals=[], line=f"consts {CODE[f]} 0"))
     for (s, d) in PAIRS:
         r = rng.fork(f"{s}>{d}")
         if BITS[s] == 8:
@@ -163,7 +168,9 @@ def gen_items(rng, tier):
 
 def item_term(it, obs_line):
     obs = F.norm_obs_line(obs_line)
-    if it["kind"] == "range":
+    if it["kind"] == "consts":
+        case = f"CConsts {CODE[it['s']]}"
+    elif it["kind"] == "range":
         case = f"CRange {mcode(it['mode'])} {CODE[it['s']]} {CODE[it['d']]} {zt(it['lo'])} {it['n']}%N"
     else:
         case = f"CVals {mcode(it['mode'])} {CODE[it['s']]} {CODE[it['d']]} [" + "; ".join(zt(v) for v in it["vals"]) + "]"
@@ -208,6 +215,10 @@ def fn_name(S, s, d):
 
 def pinpoint(bins, it, S):
     """the individual values of a disagreeing item on which model and crate differ"""
+    if it["kind"] == "consts":
+        got = crate_consts(bins[it["mode"]]).get(it["s"])
+        return [dict(input="n/a", format=it["s"], constant=CONST_NAMES[i], implementation=g, generated_table=e)
+                for i, (g, e) in enumerate(zip(got or [], table_consts(S, it["s"]))) if g != e]
     vals = it["vals"] if it["kind"] != "range" else list(range(it["lo"], it["lo"] + it["n"]))
     out = []
     for part in chunks(vals, 512):
@@ -217,11 +228,84 @@ def pinpoint(bins, it, S):
         model = parse_zll(mo) or []
         for v, a, b in zip(part, impl, model):
             if a != b:
-                out.append(dict(input=v, implementation=a, model=b, specification=spec(it["s"], it["d"], v) if fmin(it["s"]) <= v <= fmax(it["s"]) else "n/a (out-of-range representation value)"))
+                out.append(dict(input=v, implementation=a, model=b, **({"note": f"{it['d']}::new({a[1]}) is not Some: the returned value is not a valid value of the target format by the crate's own validity check"} if a[:1] == [6] else {}), specification=spec(it["s"], it["d"], v) if fmin(it["s"]) <= v <= fmax(it["s"]) else "n/a (out-of-range representation value)"))
         if out:
             break
     out.sort(key=lambda r: abs(r["input"]))
     return out[:5]
+
+
+CONST_NAMES = ["MIN", "MAX", "<T as Sample>::EQUILIBRIUM", "types::<mod>::EQUILIBRIUM", "T::new(MIN).is_some()", "T::new(MAX).is_some()",
+               "T::new(MIN-1).is_none()", "T::new(MAX+1).is_none()"]
+
+
+def crate_consts(binpath):
+    rc, outl, _ = F.run_bin(binpath, [f"consts {CODE[f]} 0" for f in FORMATS])
+    out = {}
+    for f, o in zip(FORMATS, outl):
+        t = o.split()
+        if t and t[0] == "0":
+            out[f] = [int(x) for x in t[1:]]
+    return out
+
+
+def spec_consts(f):
+    return [fmin(f), fmax(f), offset(f), offset(f), 1, 1, 1, 1]
+
+
+def table_consts(S, f):
+    if S is None:
+        return spec_consts(f)
+    _, lo, hi, eq, _ = S.fmt_facts(f)
+    return [lo, hi, eq, eq, 1, 1, 1, 1]
+
+
+def constants_search(rep, S, bins, why):
+    """the crate's own MIN / MAX / EQUILIBRIUM / validity check against 2^(bits-1) (and the values the
+    translator read from the source), with the simplest conversion each difference breaks"""
+    found = False
+    for mode in MODES:
+        got = crate_consts(bins[mode])
+        for f in FORMATS:
+            g, e = got.get(f), spec_consts(f)
+            if g is None:
+                continue
+            for i in range(8):
+                if g[i] == e[i] or (i == 3 and g[2] != e[2]):
+                    continue
+                wide = "i64" if f not in ("i64",) else "u64"
+                small = "i8" if f != "i8" else "i16"
+                if i in (2, 3):
+                    src, v, law = small, offset(small), "equilibrium maps to equilibrium"
+                elif i in (0, 4):
+                    src, v, law = wide, fmin(wide), "MIN maps to MIN / every result is a valid value of the target format"
+                elif i in (1, 5):
+                    src, v, law = wide, fmax(wide), "MAX maps to MAX when narrowing / every result is a valid value of the target format"
+                else:
+                    src, v, law = None, None, "the format's validity check accepts a value outside [MIN, MAX]"
+                payload = dict(kind="a format constant of the crate is not the one the property's formats have", why=why,
+                               format=f, constant=CONST_NAMES[i].replace("T::", f + "::").replace("<T ", f"<{f} "),
+                               value_in_crate=g[i], expected=e[i],
+                               expected_meaning=("2^(bits-1) for offset-unsigned, 0 for signed" if i in (2, 3) else "-2^(bits-1) or 0" if i == 0 else "2^(bits-1)-1 or 2^bits-1" if i == 1 else "true"),
+                               value_read_from_source_by_translator=(table_consts(S, f)[i] if S is not None else "n/a (translator failed)"),
+                               profile=pname(mode), law_broken=law)
+                if src is not None:
+                    rc, outl, _ = F.run_bin(bins[mode], [f"vals {CODE[src]} {CODE[f]} {v}"])
+                    ob = F.norm_obs_line(outl[0])[0] if outl else []
+                    crate_target = {2: g[2], 3: g[3], 0: g[0], 4: g[0], 1: g[1], 5: g[1]}[i]
+                    payload.update(function=fn_name(S, src, f), call=f"<{src} as Sample>::to_sample::<{f}>()", input=v,
+                                   got=(ob[1] if ob[:1] == [0] else f"{ob[1]} returned, but {f}::new({ob[1]}) is not Some" if ob[:1] == [6] else f"observation {ob}"),
+                                   expected_by_the_crates_own_constant=crate_target, expected_by_specification=spec(src, f, v),
+                                   harness_line=f"vals {CODE[src]} {CODE[f]} {v}", case=dict(s=src, d=f, mode=mode, vals=[v]))
+                    failing = ob[:1] != [0] or ob[1] != crate_target
+                else:
+                    failing = True
+                payload["consts_format"] = f
+                rep.violation(f"const_{f}_{i}_{PROFILES[mode][0]}", payload, no_input=not failing)
+                found = found or failing
+        if found:
+            break
+    return found
 
 
 # ---------------------------------------------------------------------------
@@ -240,6 +324,8 @@ def oracle_lines(rng, tier, mode, for_search=False):
         if b <= 16:
             out.append((f"sweep {c} {lo} {total} 1", (s, d), total))
             continue
+        bv = boundary(s)
+        out.append((f"ovals {c} " + " ".join(map(str, bv)), (s, d), len(bv)))
         if b == 24 and (not quick or for_search):
             out.append((f"sweep {c} {lo} {total} 1", (s, d), total))
             continue
@@ -384,7 +470,10 @@ def scratch_harness():
     if os.path.exists(ds):
         shutil.rmtree(ds)
     shutil.copytree(os.path.join(F.REPO, "dasp_sample"), ds)
-    shutil.copy(TEST_CONV, os.path.join(ds, "src", "conv.rs"))
+    if TEST_CONV:
+        shutil.copy(TEST_CONV, os.path.join(ds, "src", "conv.rs"))
+    if TEST_TYPES:
+        shutil.copy(TEST_TYPES, os.path.join(ds, "src", "types.rs"))
     h = os.path.join(root, "harness")
     F.ensure_dir(os.path.join(h, "src", "bin"))
     shutil.copy(os.path.join(F.HARNESS, "src", "lib.rs"), os.path.join(h, "src", "lib.rs"))
@@ -410,7 +499,7 @@ def scratch_harness():
 
 
 def build_bins():
-    if TEST_CONV:
+    if TEST_MODE:
         return scratch_harness()
     bins, logs = {}, ""
     for mode in MODES:
@@ -497,17 +586,22 @@ def search_failing_input(rep, S, bins, rng, tier, why):
             for f in uniq[:4]:
                 f = minimise_failure(bins[mode], f)
                 s, d = f["pair"]
-                got = {0: f["got"], 7: f"to_sample/from_sample disagree: {f['got']}", 8: f"panic kind {f['got']}"}[f["tag"]]
+                got = {0: f["got"], 7: f"to_sample/from_sample disagree: {f['got']}", 8: f"panic kind {f['got']}",
+                       6: f"{f['got']} returned, but {d}::new({f['got']}) is not Some({f['got']}): not a valid value of the target format by the crate's own validity check"}[f["tag"]]
                 rep.violation(f"{s}_to_{d}_{PROFILES[mode][0]}", dict(
-                    kind="conversion does not produce the exact power-of-two rescaling", why=why,
+                    kind=("conversion result is not a valid in-range value of the target format by the crate's own validity check (T::new)" if f["tag"] == 6
+                          else "conversion does not produce the exact power-of-two rescaling"), why=why,
                     function=fn_name(S, s, d), call=f"<{s} as Sample>::to_sample::<{d}>()", profile=pname(mode),
                     input=f["input"], got=got, expected=f["expected"], failing_inputs_in_that_sweep=f["nfail"],
                     harness_line=f"vals {CODE[s]} {CODE[d]} {f['input']}", case=dict(s=s, d=d, mode=mode, vals=[f["input"]])))
                 found_any = True
             if found_any:
                 break
+        # (b'') the crate's format constants and validity check
+        if not found_any:
+            found_any = constants_search(rep, S, bins, why)
     # (b') the same oracle sweep through the crate built WITHOUT its std feature (cfg-gated code paths)
-    if not found_any and not TEST_CONV:
+    if not found_any and not TEST_MODE:
         okn, logn, npath = F.nostd_build("c01")
         if okn:
             n, fails, err = run_oracle(npath, oracle_lines(rng.fork("search_nostd"), tier, 0, for_search=True))
@@ -551,7 +645,7 @@ def proof_phase(rep, S, terr, bins, rng, tier):
     info = {"coq_ok": False, "theorems": [], "axioms": [], "coq_s": None}
     if terr is not None:
         search_failing_input(rep, None, bins, rng, tier,
-                             dict(stage="translator", message="the model cannot be regenerated from conv.rs: " + terr))
+                             dict(stage="translator", message="the model cannot be regenerated from the source: " + terr))
         info["coq_s"] = round(time.time() - t, 1)
         return info
     ok, log = F.coq_prop_build(PROP)
@@ -586,8 +680,8 @@ def main(rep, tier, seed):
     except T.TranslateError as e:
         S, changed, terr = None, [], str(e)
     times["translate_s"] = round(time.time() - t, 2)
-    if TEST_CONV:
-        rep.notes.append(f"note: DASP_CONV_RS={TEST_CONV} (testing mode: translator and a scratch harness use this file instead of /repo's conv.rs)")
+    if TEST_MODE:
+        rep.notes.append(f"note: DASP_CONV_RS={TEST_CONV} DASP_TYPES_RS={TEST_TYPES} (testing mode: translator and a scratch copy of dasp_sample + harness under out/ use these files instead of /repo's)")
     t = time.time()
     bins, blog = build_bins()
     times["harness_build_s"] = round(time.time() - t, 1)
@@ -617,12 +711,13 @@ def main(rep, tier, seed):
                 rep.violation(f"case{idx}", dict(
                     kind="model/implementation disagreement: the function translated from conv.rs and the crate's Sample::to_sample differ (translator or semantics fault, or a harness built from another tree)",
                     function=fn_name(S, it["s"], it["d"]), profile=pname(it["mode"]),
-                    disagreements=rows, case=dict(s=it["s"], d=it["d"], mode=it["mode"], vals=[r["input"] for r in rows] or it.get("vals", [])[:8]),
+                    disagreements=rows, **({"consts_format": it["s"]} if it["kind"] == "consts" else {}),
+                    case=dict(s=it["s"], d=it["d"], mode=it["mode"], vals=[r["input"] for r in rows if r["input"] != "n/a"] or it.get("vals", [])[:8]),
                     harness_line=it["line"][:400], replay="./check.py C01 --replay <this file>"), no_input=not rows)
             # --- the same dev-profile cases through the crate built WITHOUT its std feature (cfg-gated code paths)
-            dev_items = [it for it in items if it["mode"] == 0]
-            rc0, dev_out, _ = F.run_bin_parallel(bins[0], [it["line"] for it in dev_items])
-            if len(dev_out) == len(dev_items):
+            dev_items = [it for it in items if it["mode"] == 0] if not TEST_MODE else []
+            rc0, dev_out, _ = F.run_bin_parallel(bins[0], [it["line"] for it in dev_items]) if dev_items else (0, [], "")
+            if dev_items and len(dev_out) == len(dev_items):
                 rep.extra["no_std_build"] = F.nostd_phase(rep, "c01", dev_items, dev_out)
     times["correspondence_s"] = round(time.time() - t, 1)
     # --- crate vs i128 oracle of the specification (large sweeps); skipped when the search already ran it
@@ -642,7 +737,7 @@ def main(rep, tier, seed):
                     kind="conversion does not produce the exact power-of-two rescaling (crate vs i128 oracle; the Coq proof is about the translated model: translator fault or harness built from another tree)",
                     function=fn_name(S, s, d), profile=pname(mode), input=f["input"], tag=f["tag"], got=f["got"],
                     expected=f["expected"], case=dict(s=s, d=d, mode=mode, vals=[f["input"]])))
-        okn, logn, npath = F.nostd_build("c01")
+        okn, logn, npath = F.nostd_build("c01") if not TEST_MODE else (False, "", None)
         if okn:
             triples = oracle_lines(rng.fork("oracle_nostd"), tier, 0)
             n, fails, err = run_oracle(npath, triples)
@@ -671,7 +766,7 @@ def collect_stats(stats, items, obs):
             continue
         stats["items"] += 1
         s, d = it["s"], it["d"]
-        n = it["n"] if it["kind"] == "range" else len(it["vals"])
+        n = it["n"] if it["kind"] == "range" else 1 if it["kind"] == "consts" else len(it["vals"])
         stats["values"] += n
         for key in (f"kind:{it['kind']}", f"profile:{PROFILES[it['mode']][0]}",
                     f"src_bits:{BITS[s]}", "dir:" + ("narrow" if BITS[d] < BITS[s] else "widen" if BITS[d] > BITS[s] else "same-width"),
@@ -707,7 +802,7 @@ def finish(rep, info, tier, stats, times):
         "evaluations": stats.get("values", 0) + stats.get("oracle", 0),
         "model_vs_crate_evaluations": stats.get("values", 0), "crate_vs_i128_oracle_evaluations": stats.get("oracle", 0),
         "distinct_nontrivial": stats.get("nontrivial", 0),
-        "rule": "model-vs-crate: all 132 Sample::to_sample pairs x {debug, release, relchk = optimised with overflow checks on and debug assertions off (8-bit exhaustive, boundary and out-of-range sets; thorough: + a third of the random set; compared with the Checked model)}; every value of 8-bit sources, boundary-structured values (MIN, MIN+1, +-2^k+-1 on value and amplitude, -1, 0, 1, MAX-1, MAX, every k) plus random values of wider sources (700 per pair quick / 6000 thorough; thorough: every value of 16-bit sources by digest), out-of-range representation values of I24/U24/I48/U48; crate-vs-oracle: exhaustive <=16-bit (quick), <=24-bit and 32-bit in release (thorough), random + strided sweeps otherwise. non-trivial = distinct (pair, value) in the model-vs-crate set with a narrowing conversion of a negative amplitude that is not a multiple of the step (floor and truncation differ)",
+        "rule": "model-vs-crate: all 132 Sample::to_sample pairs x {debug, release, relchk = optimised with overflow checks on and debug assertions off (8-bit exhaustive, boundary and out-of-range sets; thorough: + a third of the random set; compared with the Checked model)}; every value of 8-bit sources, boundary-structured values (MIN, MIN+1, +-2^k+-1 on value and amplitude, -1, 0, 1, MAX-1, MAX, every k) plus random values of wider sources (700 per pair quick / 6000 thorough; thorough: every value of 16-bit sources by digest), out-of-range representation values of I24/U24/I48/U48; every result of a 24/48-bit target must satisfy T::new(r) == Some(r) (the crate's own validity check, observed as a flag); the crate's MIN/MAX/EQUILIBRIUM constants and T::new at the range ends against the generated format table; crate-vs-oracle: exhaustive <=16-bit (quick), <=24-bit and 32-bit in release (thorough), random + strided sweeps otherwise. non-trivial = distinct (pair, value) in the model-vs-crate set with a narrowing conversion of a negative amplitude that is not a multiple of the step (floor and truncation differ)",
         "samples": stats.get("samples", []), "input_distribution": stats.get("hist", {}), "disagreements": stats.get("bad", 0),
         "timing": dict(times, coq_s=info.get("coq_s")),
         "float_translation_validation": stats.get("float", {}),
@@ -752,5 +847,16 @@ def replay(path):
         verdict = "ok" if (a == b and (e is None or a == [0, e])) else "FAIL"
         bad += verdict != "ok"
         print(f"  input {v}: implementation {a}  model {b}  specification {e if ok_range else 'n/a (out of range)'}  {verdict}")
+    cf = j.get("consts_format")
+    if cf:
+        got = crate_consts(bins[mode]).get(cf, [])
+        want = spec_consts(cf)
+        for name, g, e in zip(CONST_NAMES, got, want):
+            verdict = "ok" if g == e else "FAIL"
+            bad += verdict != "ok"
+            print(f"  constant {cf} {name}: crate {g}  property's format {e}  {verdict}")
+        if j.get("input") is not None and got and impl:
+            tgt = j.get("expected_by_the_crates_own_constant")
+            print(f"  law '{j.get('law_broken')}': conversion of {j['input']} gives {impl[0]}, the crate's own constant is {tgt}")
     print("AGREE" if not bad else "DISAGREE")
     return 1 if bad else 0
